@@ -108,13 +108,28 @@ func c15Materialise(srcBase string, t *c15Tree) (string, error) {
 // c15Fds counts the descriptors of this process that refer to regular files below the source
 // tree (producer side) and below the destination (consumer side).  Directory handles (the scan
 // leaves those to the garbage collector) are not entry files and are counted separately.
+//
+// The listing itself must not need a fresh descriptor (the process may have none left): one handle
+// on /proc/self/fd is opened at first use and rewound for every listing.
+var c15FdDir *os.File
+
 func c15Fds(srcBase, dstBase string) (r, w, dirs int) {
-	ents, err := os.ReadDir("/proc/self/fd")
+	if c15FdDir == nil {
+		f, err := os.Open("/proc/self/fd")
+		if err != nil {
+			return -1, -1, -1
+		}
+		c15FdDir = f
+	}
+	if _, err := c15FdDir.Seek(0, 0); err != nil {
+		return -1, -1, -1
+	}
+	names, err := c15FdDir.Readdirnames(-1)
 	if err != nil {
 		return -1, -1, -1
 	}
-	for _, e := range ents {
-		tgt, err := os.Readlink("/proc/self/fd/" + e.Name())
+	for _, name := range names {
+		tgt, err := os.Readlink("/proc/self/fd/" + name)
 		if err != nil {
 			continue
 		}
